@@ -497,6 +497,12 @@ def _run(R, M, vks, rng, quick):
         attempts += [('bytes', b.hex(), lambda hm, b=b: hm.set(b, 1)) for b in long_bytes]
         long_strs = ['1' + '0' * w, '1' * (w + 1), '1' + u(rng.getrandbits(w), w), '1' + '0' * (w + 7)]
         attempts += [('bitstr', s, lambda hm, s=s: hm.set(s, 1)) for s in long_strs]
+        # too long although the extra leading bits are zero: the key the caller wrote has more bits than the width, dropping them aliases it to a shorter key
+        g0 = good[0]
+        zero_strs = ['0' + u(g0, w), '00000000' + u(g0, w), '0' * (w + 1), '0' * w + '1']
+        attempts += [('bitstr-leading-zeros', s_, lambda hm, s_=s_: hm.set(s_, 1)) for s_ in zero_strs]
+        zero_bytes = [b'\x00' + g0.to_bytes(nb, 'big'), bytes(nb + 1), bytes(3) + g0.to_bytes(nb, 'big')]
+        attempts += [('bytes-leading-zeros', b.hex(), lambda hm, b=b: hm.set(b, 1)) for b in zero_bytes]
         attempts += [('key-serializer', b, lambda hm, b=b: _with_ks(hm, b)) for b in bad_ints[:6]]
         if w < 267:
             from pytoniq_core.boc.address import Address
